@@ -2,7 +2,7 @@
    Statements only; proofs live in Proofs/Visitor*.v. *)
 From Coq Require Import List NArith Bool.
 From GQL Require Import Visitor.VisitorTree Visitor.VisitorWalk Visitor.VisitorLoop
-     Visitor.VisitorKeysSpec Gen.VisitorKeys Visitor.TypeInfo
+     Visitor.VisitorKeysSpec Gen.VisitorKeys Visitor.TypeInfo Visitor.TypeInfoPre
      Proofs.VisitorWalkProofs Proofs.VisitorLoopProofs Proofs.VisitorParallelProofs
      Proofs.VisitorTypeInfoProofs Visitor.VisitorOrder Proofs.VisitorOrderProofs.
 Import ListNotations.
@@ -184,6 +184,36 @@ Theorem C14_typeinfo : forall sch attr sel pol keys_of kind_of t,
                        | None => [] end) outer.
 Proof. intros * Hok Hk. exact (typeinfo_reports_types_at sch attr sel pol keys_of kind_of t Hok Hk). Qed.
 Print Assumptions C14_typeinfo.
+
+(* the same with the hypothesis "node kind determined by node identity" as a checked
+   precondition: kinds_fun t decides that no identity occurs twice in the tree, and the
+   id -> kind table of the tree is then the kind function *)
+Theorem C14_typeinfo_checked : forall sch attr sel pol keys_of t,
+  ti_ok false false t = true -> kinds_fun t = true ->
+  let kind_of := kind_of_tree t in
+  let outer := walk_events keys_of par_sel (twi_pol sel pol kind_of) t in
+  ti_run sch attr sel pol ti_init outer
+  = flat_map (fun e => match sel (e_kind e) (e_phase e) with
+                       | Some _ => [(e_phase e, e_id e, types_at sch attr (chain_of kind_of e))]
+                       | None => [] end) outer.
+Proof. intros * Hok Hk. exact (typeinfo_checked sch attr sel pol keys_of t Hok Hk). Qed.
+Print Assumptions C14_typeinfo_checked.
+
+(* The validator's composition VisitWithTypeInfo(typeInfo, VisitInParallel(subs...)): the
+   traversal is the full one (the parallel wrapper never skips or breaks), TypeInfo is told
+   of every node, and each sub-visitor -- dispatched through the skipping marks -- reads, in
+   exactly the callbacks of its own walk, types_at of the chain of enclosing nodes. *)
+Theorem C14_stacked_typeinfo : forall sch attr sel pol keys_of t,
+  tree_ok t = true -> ti_ok false false t = true -> kinds_fun t = true ->
+  let kind_of := kind_of_tree t in
+  stack_run sch attr sel pol ti_init None (walk_events keys_of par_sel par_pol t)
+  = map (fun e => (e_phase e, e_id e, types_at sch attr (chain_of kind_of e)))
+        (walk_events keys_of sel pol t).
+Proof.
+  intros * Ht Hok Hk. apply (stacked_reports_types_at sch attr sel pol keys_of (kind_of_tree t) t Ht Hok).
+  intros i k Hin. apply kinds_fun_tbl; assumption.
+Qed.
+Print Assumptions C14_stacked_typeinfo.
 
 (* ---- the generated child-key table ---- *)
 Theorem C14_keys_complete :
